@@ -18,7 +18,7 @@ EXPLANATION = ("Structural part only (the two-party convergence/liveness clause 
                "added only on KCM. (R4) the reconnect handshake rows exist and a follower announces `reconnecting` before it starts "
                "connecting (its hints must not reach a leader still flushing). (R5) dilation generations / dilate-N are sequenced. "
                "(R6) the manager is told about the loss of the selected connection through the connection's one-shot observer.")
-TRUSTED_BASE = ["T1", "T4"]
+TRUSTED_BASE = ["T1", "T4", "T5"]
 MIN_OBLIGATIONS = 25
 
 MGR = "src/wormhole/_dilation/manager.py"
@@ -296,6 +296,22 @@ def r6(tree, prog, rep):
               key="C11.R6:connector_connection_lost")
 
 
+def r8(tree, rep, tier):
+    """the two-party product (engine A5): convergence without deadlock, one connection at a time, one generation at a time"""
+    from .. import a5common
+    sums = a5common.explorations(tree, tier, rep)
+    a5common.fill_extra(rep, sums)
+    a5common.report(rep, "C11.R8", sums, a5common.INTERNAL + ("two-connections", "second-live-connector", "pending-outlives-connector"))
+    for envname, s in sums.items():
+        rep.check("C11.R8", "two-party environment '%s': from each of the %d reachable joint states in which nobody has stopped, a state is reachable "
+                  "in which both Managers are connected over the same live link (%d such states)" % (envname, s.running_states, s.converged_states),
+                  s.n_stuck == 0 and (s.converged_states > 0 or not s.exhaustive), key="C11.R8:convergence:%s" % envname,
+                  what="the two sides can get stuck: from %d reachable joint states no interleaving of message deliveries, link events and timers "
+                       "ever leads to both sides connected over one link, e.g. after %s in %s" % (
+                           s.n_stuck, s.stuck[0][0] if s.stuck else "?", s.stuck[0][1] if s.stuck else "?"),
+                  detail=("nearest stuck states: %s" % (s.stuck,)) if s.stuck else None)
+
+
 def run(tree, rep, tier):
     prog = r1(tree, rep)
     r2(tree, prog, rep)
@@ -307,6 +323,7 @@ def run(tree, rep, tier):
     # connector_connection_made: the keep-alive timer must accept got_connection in whatever state a loss left it
     from .C10 import timer_accepts_next_connection
     timer_accepts_next_connection(tree, rep, "C11.R7")
+    r8(tree, rep, tier)
 
 
 MUTANTS = [
